@@ -5,7 +5,7 @@ from harness import common, gen, api
 from harness.common import fhex, flist, ftable, ftable2, cbool
 
 LEVEL = "proof"
-IMPORTS = ["From MuxV Require Import Base.Num Base.Vec3 Base.FInst Model.Grid Model.GridF Model.QCurve Model.QCurveF Model.Kuchemann Model.KuchemannF Model.Reid Model.ReidF Model.Gather Model.GatherF."]
+IMPORTS = ["From MuxV Require Import Base.Num Base.Vec3 Base.FInst Model.Grid Model.GridF Model.QCurve Model.QCurveF Model.Kuchemann Model.KuchemannF Model.SegSort Model.SegSortF Model.Reid Model.ReidF Model.Gather Model.GatherF."]
 
 
 # ------------------------------------------------------------------ grid correspondence
@@ -229,6 +229,26 @@ def qcurve_cases(chk, ac, a, cases, descr):
         exp = [list(map(float, p)) for p in seg.nodes] + [list(map(float, p)) for p in seg.control_points]
         cases.append("chk_ll %s %s %s %s" % (ftable(tc), ftable(ts), rows, ftrip(exp)))
         descr.append(dict(what="lifting-line-offset", segment=seg.name, ll_offset=w.get("ll_offset", 0.0)))
+
+
+def sort_cases(chk, a, cases, descr):
+    """Model/SegSort.v: the order of the left-hand segments of every wing, recomputed by the model from their tip distances handed over in
+    the reverse order (distinct distances: the result does not depend on the order they are met in)"""
+    for wi, wing in enumerate(a._segments_in_wings):
+        left = [s_ for s_ in wing if s_.side == "left"]
+        if not left:
+            continue
+        norms = []
+        for s_ in left:
+            tip = s_.get_tip_loc()
+            norms.append(math.sqrt(float(tip[1]) * float(tip[1]) + float(tip[2]) * float(tip[2])))
+        if len(set(norms)) < len(norms):
+            continue
+        order = list(range(len(left)))[::-1]
+        cases.append("chk_sort_left [%s] [%s]" % ("; ".join("(%d%%nat, %s)" % (k_, fhex(norms[k_])) for k_ in order),
+                                                 "; ".join("%d%%nat" % k_ for k_ in range(len(left)))))
+        descr.append(dict(what="left-segment-order", wing=wi, segments=[s_.name for s_ in left], tip_distances=norms))
+        chk.count("left-segment-order=%d" % len(left))
 
 
 # ------------------------------------------------------------------ effective lifting lines and joints (Model/Reid.v)
@@ -538,6 +558,7 @@ def run(chk):
             grid_cases(chk, seg, ac["wings"][seg.name.rsplit("_", 1)[0]], cases, descr)
         qcurve_cases(chk, ac, a, cases, descr)
         reid_cases(chk, a, cases, descr, rng)
+        sort_cases(chk, a, cases, descr)
         # reference quantities
         ref = ac.get("reference", {})
         opt = lambda k: ("(Some %s)" % fhex(ref[k])) if k in ref else "None"
